@@ -1738,3 +1738,191 @@ func hasEmptyNullElse(guards []guard) bool {
 	}
 	return false
 }
+
+// ---- R74: enum value tables hold each string once ----
+
+func init() {
+	register(&Rule{ID: "R74", Name: "ENUM-UNIQUE", Floor: 4,
+		Text: "every value stored into the values table of an ecolumn.Column (composite literal or field assignment, in package internal/ecolumn) is (a) the values table of an existing column, unchanged, (b) a parameter (the declared values handed to the factory, or a copy of them made by append onto an empty slice), or (c) a slice grown only by appends of a string s that are guarded by a failed comma-ok lookup of s in a map that then records s (in the same function, or - for the minting helper - at every call chain into it): filters translate a constant to one code, and grouping, Distinct and sorting work on codes, so two codes with the same string would make equal cells behave differently",
+		Run:  runR74})
+}
+
+func runR74(c *Ctx) {
+	p := c.P
+	pkg := "internal/ecolumn"
+	res := p.resolver()
+	callers := map[*ssa.Function][]*ssa.Call{}
+	for _, fn := range p.FuncsIn(pkg) {
+		eachInstr(fn, func(in ssa.Instruction) {
+			if call, ok := in.(*ssa.Call); ok {
+				for _, callee := range res.callees(call) {
+					callers[callee] = append(callers[callee], call)
+				}
+			}
+		})
+	}
+	// failedLookupGuards: block b is dominated by `_, ok := m[k]` with ok false
+	failedLookup := func(b *ssa.BasicBlock, key ssa.Value) bool {
+		for _, g := range dominatingGuards(b) {
+			ex, ok := g.Cond.(*ssa.Extract)
+			if !ok || ex.Index != 1 || g.Val {
+				continue
+			}
+			lk, ok := ex.Tuple.(*ssa.Lookup)
+			if !ok || !lk.CommaOk {
+				continue
+			}
+			if key == nil || stripStringConv(lk.Index) == stripStringConv(key) {
+				return true
+			}
+		}
+		return false
+	}
+	var guardedEntry func(fn *ssa.Function, d int) bool
+	guardedEntry = func(fn *ssa.Function, d int) bool {
+		if d > 3 || len(callers[fn]) == 0 {
+			return false
+		}
+		for _, call := range callers[fn] {
+			if failedLookup(call.Block(), nil) {
+				continue
+			}
+			if !guardedEntry(call.Parent(), d+1) {
+				return false
+			}
+		}
+		return true
+	}
+	var classify func(v ssa.Value, fn *ssa.Function, seen map[ssa.Value]bool) string // "" = ok, else reason
+	classify = func(v ssa.Value, fn *ssa.Function, seen map[ssa.Value]bool) string {
+		if seen[v] {
+			return ""
+		}
+		seen[v] = true
+		switch t := v.(type) {
+		case *ssa.Parameter:
+			return ""
+		case *ssa.Const:
+			return ""
+		case *ssa.Phi:
+			for _, e := range t.Edges {
+				if why := classify(e, fn, seen); why != "" {
+					return why
+				}
+			}
+			return ""
+		case *ssa.UnOp:
+			if t.Op == token.MUL {
+				if fa, ok := t.X.(*ssa.FieldAddr); ok && fieldNameAt(fa) == "values" {
+					return "" // an existing table
+				}
+				if al, ok := t.X.(*ssa.Alloc); ok {
+					for _, r := range *al.Referrers() {
+						if st, ok := r.(*ssa.Store); ok && st.Addr == ssa.Value(al) {
+							if why := classify(st.Val, fn, seen); why != "" {
+								return why
+							}
+						}
+					}
+					return ""
+				}
+			}
+		case *ssa.Field:
+			if st, ok := t.X.Type().Underlying().(*types.Struct); ok && st.Field(t.Field).Name() == "values" {
+				return ""
+			}
+		case *ssa.MakeSlice:
+			// only acceptable when nothing is stored into it by index (it is then empty or zero-length)
+			for _, r := range *t.Referrers() {
+				if ia, ok := r.(*ssa.IndexAddr); ok {
+					for _, r2 := range *ia.Referrers() {
+						if st, ok := r2.(*ssa.Store); ok && st.Addr == ssa.Value(ia) {
+							return "strings are stored by index into a new table (" + p.instrPos(st) + ") without checking whether the table already holds them"
+						}
+					}
+				}
+			}
+			if k, ok := constInt(t.Len); !ok || k != 0 {
+				return "a table of non-zero length is allocated and filled by index"
+			}
+			return ""
+		case *ssa.Call:
+			if builtinName(t) == "append" && len(t.Call.Args) == 2 {
+				if why := classify(t.Call.Args[0], fn, seen); why != "" {
+					return why
+				}
+				// append(x, y...) of a whole parameter slice onto an empty slice: a copy of the declared values
+				if _, isParam := rootValue(t.Call.Args[1]).(*ssa.Parameter); isParam {
+					return ""
+				}
+				var elem ssa.Value
+				if sl, ok := t.Call.Args[1].(*ssa.Slice); ok {
+					if al, ok := sl.X.(*ssa.Alloc); ok {
+						for _, r := range *al.Referrers() {
+							if ia, ok := r.(*ssa.IndexAddr); ok {
+								for _, r2 := range *ia.Referrers() {
+									if st, ok := r2.(*ssa.Store); ok {
+										elem = st.Val
+									}
+								}
+							}
+						}
+					}
+				}
+				if elem == nil {
+					return "a slice of unknown strings is appended to the table at " + p.instrPos(t)
+				}
+				// recorded in a map in the same block
+				recorded := false
+				for _, in := range t.Block().Instrs {
+					if mu, ok := in.(*ssa.MapUpdate); ok && stripStringConv(mu.Key) == stripStringConv(elem) {
+						recorded = true
+					}
+				}
+				if !recorded {
+					return "the string appended at " + p.instrPos(t) + " is not recorded in a lookup map in the same step"
+				}
+				if failedLookup(t.Block(), elem) || guardedEntry(t.Parent(), 0) {
+					return ""
+				}
+				return "the append at " + p.instrPos(t) + " is not guarded by a failed lookup of the appended string"
+			}
+		}
+		return "the table is " + describe(v) + ", which is neither an existing table, the declared values nor a de-duplicated accumulation"
+	}
+	for _, fn := range p.FuncsIn(pkg) {
+		fnm := fname(fn)
+		eachInstr(fn, func(in ssa.Instruction) {
+			st, ok := in.(*ssa.Store)
+			if !ok {
+				return
+			}
+			fa, ok := st.Addr.(*ssa.FieldAddr)
+			if !ok || fieldNameAt(fa) != "values" {
+				return
+			}
+			if n, ok := deref(fa.X.Type()).(*types.Named); !ok || n.Obj().Name() != "Column" {
+				return
+			}
+			key := fnm + "|values table"
+			if why := classify(st.Val, fn, map[ssa.Value]bool{}); why == "" {
+				c.ok(key, p.instrPos(st), "existing table, declared values, or de-duplicated accumulation")
+			} else {
+				c.bad(key, p.instrPos(st), "an enum values table may contain the same string twice: "+why)
+			}
+		})
+	}
+}
+
+func stripStringConv(v ssa.Value) ssa.Value {
+	for {
+		switch t := v.(type) {
+		case *ssa.Convert:
+			v = t.X
+		case *ssa.ChangeType:
+			v = t.X
+		default:
+			return v
+		}
+	}
+}
